@@ -101,8 +101,6 @@ def judge(trees, im, mo):
     if not isinstance(im.get("base"), list) or len(im["base"]) != 1:
         return "bkli output is not one JSON document"
     base = im["base"][0]
-    if not veq(base, mo):
-        return "bkli's result differs from the model's intersection: %s vs %s" % (hist.short(base), hist.short(mo))
     if im.get("self_rc") != 0 or not veq(im.get("self"), [trees[0]]):
         return "intersecting a document with itself does not return it: %s" % hist.short(im.get("self"))
     for pth, leaf in leaves(base):
@@ -118,6 +116,9 @@ def judge(trees, im, mo):
             return "migration: %s failed for an input: %s" % (m["step"], m["err"].strip())
         if not veq(m.get("out"), [t]):
             return "migration is lossy: base + bkld(base, input) evaluates to %s" % hist.short(m.get("out"))
+    # marking and maximality are what the model pins down; the implementation-only clauses above all hold here
+    if not veq(base, mo):
+        return "bkli's result differs from the model's intersection (marking / maximality): %s vs %s" % (hist.short(base), hist.short(mo))
     return None
 
 
